@@ -1,1 +1,238 @@
+//! C06: StreamReader returns exactly the valid delimited records.
+//!
+//! Assume/guarantee decomposition: C08 proves (one step from every state)
+//! that `StreamChunker::pump` tiles the stream with chunks obeying the C08
+//! contract.  Here `pump` is REPLACED (Kani stubbing) by a nondeterministic
+//! generator of every chunk sequence allowed by that contract over a symbolic
+//! stream — data runs are cut at arbitrary symbolic points — and the real
+//! `StreamReader::next_record_bytes` (record assembly, decoder, judge
+//! handling, skip / stop logic) is checked against a reference splitter and
+//! the reference decoder.  Because the chunk boundaries are symbolic, one
+//! query covers every read schedule and every block size at once.
+use hcobs::Chunk;
+use hcobs::StreamChunker;
+use hcobs::StreamReader;
+use owning_iovec::ByteArena;
+use std::io::IoSlice;
 
+pub const S: usize = 6;
+
+pub struct Stream {
+    pub bytes: [u8; S],
+    pub len: usize,
+    pub pos: usize,
+    pub pumps: usize,
+}
+
+pub static mut STREAM: Stream = Stream { bytes: [0u8; S], len: 0, pos: 0, pumps: 0 };
+
+/// Contract-satisfying replacement for `StreamChunker::pump`.
+pub fn stub_pump<R: std::io::Read>(
+    _this: &mut StreamChunker,
+    arena: &mut ByteArena,
+    _reader: R,
+    _io_block_size: usize,
+) -> std::io::Result<Chunk> {
+    let st = unsafe { &mut *std::ptr::addr_of_mut!(STREAM) };
+    st.pumps += 1;
+    let (pos, len) = (st.pos, st.len);
+    if pos == len {
+        return Ok(Chunk::Eof);
+    }
+    if pos + 2 <= len && st.bytes[pos] == 0xFE && st.bytes[pos + 1] == 0xFD {
+        st.pos += 2;
+        return Ok(Chunk::Sentinel(st.pos as u64));
+    }
+    // a data run of arbitrary length d >= 1 that contains no stuff sequence and
+    // does not leave one straddling its end
+    let d: usize = kani::any();
+    kani::assume(d >= 1 && pos + d <= len);
+    let mut i = 0;
+    while i < S {
+        if i + 1 < d {
+            kani::assume(!(st.bytes[pos + i] == 0xFE && st.bytes[pos + i + 1] == 0xFD));
+        }
+        i += 1;
+    }
+    if pos + d < len {
+        kani::assume(!(st.bytes[pos + d - 1] == 0xFE && st.bytes[pos + d] == 0xFD));
+    }
+    // the run must stop before a sentinel that starts inside the remaining data:
+    // (a stuff sequence starting at pos+d is fine: the next pump reports it)
+    let avail = len - pos;
+    let cap = if avail < S { avail } else { S };
+    let mut got = match arena.read_n(&st.bytes[pos..len], S, std::num::NonZeroUsize::new(1).unwrap()) {
+        Ok(got) => got,
+        Err(_) => {
+            assert!(false, "slice readers do not fail");
+            return Ok(Chunk::Eof);
+        }
+    };
+    assert!(got.slice().len() == cap);
+    got.drop_suffix(cap - d);
+    st.pos += d;
+    Ok(Chunk::Data((st.pos as u64, got)))
+}
+
+fn flat(slices: &[IoSlice<'_>], j: usize) -> Option<u8> {
+    let mut off = 0usize;
+    let mut i = 0;
+    while i < 4 {
+        if i < slices.len() {
+            let s: &[u8] = &slices[i];
+            if j < off + s.len() {
+                return Some(s[j - off]);
+            }
+            off += s.len();
+        }
+        i += 1;
+    }
+    None
+}
+
+/// Reference decoding of the segment bytes[a..b) with the production limits.
+fn ref_record(bytes: &[u8; S], a: usize, b: usize) -> Option<crate::refcodec::Buf> {
+    let mut seg = [0u8; S];
+    let mut i = 0;
+    while i < S {
+        if a + i < b {
+            seg[i] = bytes[a + i];
+        }
+        i += 1;
+    }
+    crate::refcodec::ref_decode(&seg, b - a, 252, 64008)
+}
+
+fn reader_records(max_fixed: usize, witness: bool) {
+    let st = unsafe { &mut *std::ptr::addr_of_mut!(STREAM) };
+    st.bytes = kani::any();
+    st.len = kani::any();
+    kani::assume(st.len <= S);
+    st.pos = 0;
+    st.pumps = 0;
+    let bytes = st.bytes;
+    let len = st.len;
+
+    let max_size: usize = if max_fixed < 100 { max_fixed } else { kani::any() };
+    let limit: Option<u64> = if kani::any() { None } else { Some(kani::any()) };
+    let lim = match limit {
+        Some(l) => l as usize as u64,
+        None => u64::MAX,
+    };
+    let mut reader = StreamReader::new();
+    let empty: &[u8] = &[];
+
+    // reference scan position
+    let mut pos = 0usize;
+    let mut done = false;
+    let mut call = 0;
+    while call < 3 {
+        call += 1;
+        if done {
+            continue;
+        }
+        // ---- reference: find the next record to return -------------------------
+        let mut expect: Option<(usize, usize, crate::refcodec::Buf)> = None; // start, end, decoded contents
+        let mut guard = 0;
+        while guard < S + 1 {
+            guard += 1;
+            // skip delimiters; the judge sees each of them with range = end..end
+            let mut stop = false;
+            let mut k = 0;
+            while k < S / 2 + 1 {
+                if pos + 2 <= len && bytes[pos] == 0xFE && bytes[pos + 1] == 0xFD {
+                    pos += 2;
+                    if pos as u64 >= lim {
+                        stop = true;
+                    }
+                }
+                k += 1;
+            }
+            if stop || pos == len {
+                done = true;
+                break;
+            }
+            // record = maximal stuff-free segment [pos, end)
+            let mut end = len;
+            let mut i = 0;
+            while i < S {
+                if i >= pos && i + 1 < len && end == len && bytes[i] == 0xFE && bytes[i + 1] == 0xFD {
+                    end = i;
+                }
+                i += 1;
+            }
+            if pos as u64 >= lim {
+                done = true;
+                break;
+            }
+            let dec = ref_record(&bytes, pos, end);
+            let next = if end < len { end + 2 } else { len };
+            match dec {
+                Some(plain) if plain.len <= max_size => {
+                    expect = Some((pos, end, plain));
+                    pos = next;
+                    break;
+                }
+                _ => {
+                    // invalid or oversized: skipped; the terminating delimiter is consumed silently
+                    pos = next;
+                }
+            }
+        }
+        // ---- implementation --------------------------------------------------------
+        let got = reader.next_record_bytes(empty, StreamReader::chunk_judge(max_size, limit), Some(3));
+        match got {
+            Err(_) => assert!(false, "no I/O error is injected"),
+            Ok(None) => {
+                assert!(expect.is_none());
+                done = true;
+            }
+            Ok(Some((iov, range))) => {
+                assert!(expect.is_some());
+                let (s, e, plain) = expect.unwrap();
+                let n = plain.len;
+                assert_eq!(range.start, s as u64);
+                assert_eq!(range.end, e as u64);
+                assert_eq!(iov.total_size(), n);
+                let j: usize = kani::any();
+                if j < n {
+                    let sl = match iov.iovs() {
+                        Ok(sl) => sl,
+                        Err(_) => {
+                            assert!(false, "records have no pending placeholder");
+                            return;
+                        }
+                    };
+                    assert!(flat(sl, j) == Some(plain.b[j]));
+                }
+                kani::cover!(s > 0 && n > 0, "record after a skipped prefix or delimiter");
+            }
+        }
+    }
+    kani::cover!(st.pumps >= 4, "several chunks pumped");
+    std::mem::forget(reader);
+    if witness {
+        assert!(false, "reachability witness: harness end reached");
+    }
+}
+
+#[kani::proof]
+#[kani::unwind(26)]
+#[kani::stub(hcobs::StreamChunker::pump, stub_pump)]
+fn c06_records_s6() {
+    reader_records(1000, false)
+}
+
+#[kani::proof]
+#[kani::unwind(26)]
+#[kani::stub(hcobs::StreamChunker::pump, stub_pump)]
+fn c06_records_s6_max2() {
+    reader_records(2, false)
+}
+
+#[kani::proof]
+#[kani::unwind(26)]
+#[kani::stub(hcobs::StreamChunker::pump, stub_pump)]
+fn c06_records_s6_witness() {
+    reader_records(1000, true)
+}
